@@ -22,6 +22,7 @@ import time
 
 RUNNABLE, BLOCKED_GET, BLOCKED_PUT, BLOCKED_JOIN, BLOCKED_COND, DONE = "RUNNABLE", "BLOCKED_GET", "BLOCKED_PUT", "BLOCKED_JOIN", "BLOCKED_COND", "DONE"
 NONTERM_STEPS = 200
+NO_PROGRESS_STEPS = 1500  # steps without any put / delivered get / read / message / thread start or end
 
 
 class SchedAbort(BaseException):
@@ -58,6 +59,7 @@ class Scheduler:
         self.step_cap = step_cap
         self.aborted = None  # None | ("deadlock"|"non-termination"|"step-cap"|"wall-cap", detail)
         self.only_timeouts_run = 0
+        self.last_progress = 0
         self.timeouts_fired = 0
         self.context_switches = 0
         self.max_queue_depth = 0
@@ -89,7 +91,11 @@ class Scheduler:
         st = TState(name, thread)
         with self.mutex:
             self.states.append(st)
+            self.last_progress = self.steps
         return st
+
+    def progress(self):
+        self.last_progress = self.steps
 
     def log(self, kind, info=None):
         st = self.me()
@@ -165,6 +171,13 @@ class Scheduler:
                 if finishing:
                     return
                 raise SchedAbort()
+            if self.steps - self.last_progress > NO_PROGRESS_STEPS:
+                # threads keep cycling (wait, time out, wait again ...) but nothing is produced, consumed, started or finished:
+                # somebody waits for a message that nobody will ever send
+                self._abort("non-termination", {"threads": self.describe_threads(), "steps_without_progress": self.steps - self.last_progress})
+                if finishing:
+                    return
+                raise SchedAbort()
             if all(a == "timeout" for _, a in enabled):
                 self.only_timeouts_run += 1
                 if self.only_timeouts_run > NONTERM_STEPS:
@@ -213,6 +226,7 @@ class Scheduler:
     def thread_end(self, st):
         with self.mutex:
             st.status = DONE
+            self.last_progress = self.steps
         self._switch(st, finishing=True)
 
     def wait_until(self, cond):
@@ -302,6 +316,7 @@ class SchedQueue:
             with s.mutex:
                 self._items.append(item)
                 s.puts += 1
+                s.last_progress = s.steps
                 if len(self._items) > s.max_queue_depth:
                     s.max_queue_depth = len(self._items)
                 hook = getattr(s, "on_put", None)
@@ -329,6 +344,7 @@ class SchedQueue:
             with s.mutex:
                 if self._items:
                     s.gets += 1
+                    s.last_progress = s.steps
                     return self._items.pop(0)
             raise _queue.Empty
         s.yield_point("get")
@@ -336,6 +352,7 @@ class SchedQueue:
             with s.mutex:
                 if self._items:
                     s.gets += 1
+                    s.last_progress = s.steps
                     return self._items.pop(0)
                 me.status = BLOCKED_GET
                 me.queue = self
